@@ -193,6 +193,11 @@ def eval_direct(case, rng, thorough):
             fr, correct, info = mk_packet(rng, case["proto"], case["v6"], rng.randbytes(ln), mode)
         if correct is None:
             continue
+        if rng.random() < 0.2:
+            # link-layer trailer behind the IP datagram: zero padding to the 60-byte Ethernet minimum as a receiver-side capture shows it, or a captured
+            # frame check sequence / vendor trailer; it is not part of the segment and must not enter the sum
+            fr = fr + (bytes(60 - len(fr)) if len(fr) < 60 else rng.choice([bytes(4), rng.randbytes(4), rng.randbytes(rng.randrange(1, 9))]))
+            tclass += "+trailer"
         units += 1
         try:
             got = fn(Packet(fr, 1.0))
@@ -270,8 +275,8 @@ def eval_e2e(case, rng):
         spec, _ = tlssynth.random_spec(rng, v, code, nmax=10, big=False)
         conn = tlssynth.build_conn(spec, rng)
         ep = tcpcap.random_ep(rng, v6=v6, sport=sport)
-        segs = tcpcap.segments(conn.events, ep, tcpcap.make_cutter(rng, rng.choice(["mss", "random", "whole", "records"]), conn.events))
-        fl = scene.tls_flow(conn, ep, segs)
+        segs = tcpcap.segments(conn.events, ep, tcpcap.make_cutter(rng, rng.choice(["mss", "random", "whole", "records", "byte2"]), conn.events))
+        fl = scene.tls_flow(conn, ep, segs, ethpad=(ep.cport + ep.cisn) % 3 == 0)
         what = f"tls-{suites.VNAME[v]}"
     items = list(fl.items)
     # B: corrupted packets = (a) inserted damaged copies of real packets placed before the original, (b) real packets whose checksum is damaged
@@ -282,7 +287,8 @@ def eval_e2e(case, rng):
         has_payload = (it.seg is not None and getattr(it.seg, "payload", b"")) or quic
         if has_payload and mode in ("insert", "both") and rng.random() < 0.25:
             fr = bytearray(it.frame)
-            fr[-1 - rng.randrange(max(1, min(8, len(fr) - (14 + (40 if ep.v6 else 20) + (8 if quic else 20)))))] ^= 1 << rng.randrange(8)      # payload byte flipped, checksum left as it was -> wrong
+            end = 14 + (40 + int.from_bytes(fr[18:20], "big") if ep.v6 else int.from_bytes(fr[16:18], "big"))      # end of the IP datagram (a link-layer trailer may follow)
+            fr[end - 1 - rng.randrange(max(1, min(8, end - (14 + (40 if ep.v6 else 20) + (8 if quic else 20)))))] ^= 1 << rng.randrange(8)      # payload byte flipped, checksum left as it was -> wrong
             out_items.append((scene.Item(bytes(fr), dir=it.dir, tag="bad"), True))
             nb += 1
         if has_payload and mode in ("corrupt-real", "both") and rng.random() < 0.12:
